@@ -1,8 +1,8 @@
 ---- MODULE MCSession ----
 EXTENDS Session
 T(id, names) == [id |-> id, names |-> names]
-MCGood == { T("t2c", {"t2"}), T("ib", {"ib"}), T("bb-r1", {"bb@1"}), T("bb-r2", {"bb@2"}), T("e5", {"e5"}), T("i1", {"i1"}), T("t2", {"t2"}), T("a3", {"a3"}), T("m4", {"m4"}), T("s4", {"s4"}), T("t2b", {"t2"}) }
-MCGoodQuick == { T("t2c", {"t2"}), T("ib", {"ib"}), T("bb-r1", {"bb@1"}), T("bb-r2", {"bb@2"}), T("e5", {"e5"}), T("i1", {"i1"}), T("t2", {"t2"}), T("a3", {"a3"}), T("m4", {"m4"}), T("s4", {"s4"}) }
+MCGood == { T("ab-r1", {"ab@1"}), T("t2c", {"t2"}), T("ib", {"ib"}), T("bb-r1", {"bb@1"}), T("bb-r2", {"bb@2"}), T("e5", {"e5"}), T("i1", {"i1"}), T("t2", {"t2"}), T("a3", {"a3"}), T("m4", {"m4"}), T("s4", {"s4"}), T("t2b", {"t2"}) }
+MCGoodQuick == { T("ab-r1", {"ab@1"}), T("t2c", {"t2"}), T("ib", {"ib"}), T("bb-r1", {"bb@1"}), T("bb-r2", {"bb@2"}), T("e5", {"e5"}), T("i1", {"i1"}), T("t2", {"t2"}), T("a3", {"a3"}), T("m4", {"m4"}), T("s4", {"s4"}) }
 \* second catalogue: type errors that must come back on every run, a late deviating / augmenting module, identities with
 \* several bases of which one arrives later, a linking failure after a successful run, a broken grouping used twice
 MCGood2 == { T("fd", {"fd"}), T("e6", {"e6"}), T("tgt", {"tgt"}), T("tgt2", {"tgt2"}), T("dv", {"dv"}), T("dvok", {"dvok"}), T("rv", {"rv@1"}), T("lnk", {"lnk"}), T("bg", {"bg"}) }
